@@ -56,6 +56,7 @@ def initial_cases(tier, seed):
         n = len(slist)
         for nk0, nk1, nd1, ndd in ((n, 0, 0, 0), (n, min(2, n), 0, 0), (max(1, n - 2), min(2, n), min(2, n), 0), (n, 1, min(3, n), min(2, n)), (1, 0, 1, 1)):
             cases.append({"kind": "nlof", "slist": slist, "nk0": nk0, "nk1": nk1, "nd1": nd1, "ndd": ndd})
+    cases.append({"kind": "vmapheg"})
     for fam, sl, rm in itertools.product(["VJ", "VI", "VIJ", "VK", "VIJ2", "VI0", "SDMX", "SDMXG1", "SDMXFull", "VIJ+SDMX1"], ["npa", "nst", "np", "ns"], ["one", "expnt"]):
         if rm == "expnt" and not fam.startswith("V"):
             continue
@@ -222,6 +223,27 @@ def run_nlof(case):
     return {"fail": fails, "evals": evals, "outcome": out}
 
 
+def run_vmapheg(case):
+    """get_vmap_heg_value(h, gamma) is the centre that makes a unit-scale VMap vanish at the uniform-gas feature value h
+    (the documented recipe for centring a feature list): evaluate the real VMap there."""
+    from ciderpress.dft import transform_data as T
+
+    fails, out, evals = [], [], 0
+    for heg, gamma in itertools.product([0.0, 1e-6, 0.5, 2.0, 3.0, 8.0, 1e4], [1e-3, 0.03125, 0.5, 1.0, 7.0]):
+        c = T.get_vmap_heg_value(heg, gamma)
+        m = T.VMap(0, gamma, scale=1.0, center=c)
+        x = np.array([[heg, 2 * heg + 0.1, 0.0]])
+        y = np.zeros(3)
+        m.fill_feat_(y, x)
+        evals += 1
+        ref = gamma * heg / (1 + gamma * heg)
+        if not (abs(y[0]) <= 4e-16 and abs(c - ref) <= 4e-16 * max(1, abs(ref))):
+            fails.append({"key": "vmap-heg-centre;heg=%g;gamma=%g" % (heg, gamma),
+                          "msg": "VMap centred with get_vmap_heg_value(%g, %g) = %.17g gives %.3e at the uniform-gas value (documented centre %.17g)" % (heg, gamma, c, y[0], ref)})
+        out.append(float("%.12e" % c))
+    return {"fail": fails, "evals": evals, "outcome": out}
+
+
 def run_norm(case):
     from mc import fixtures as F
 
@@ -289,6 +311,8 @@ def run_case(case):
         return run_nldf(case)
     if k == "sdmx":
         return run_sdmx(case)
+    if k == "vmapheg":
+        return run_vmapheg(case)
     if k == "nlof":
         return run_nlof(case)
     if k == "norm":
